@@ -792,7 +792,7 @@ def check_C12(ctx):
         "abstract_cases": res["n_cases"],
     }
     return vlib.finish(ctx, "model_checking", cov, [
-        "comment texts are canonical (one space after //, no trailing blanks, single-line block comments; every third // line reads "go: ..." - words that look like a directive)",
+        "comment texts are canonical (one space after //, no trailing blanks, single-line block comments; every third // line reads 'go: ...' - words that look like a directive)",
         "only own-line comment groups and trailing comments of declarations are generated; comments trailing a '(' or '{' line are not (statement silent)",
         "other (non-tag) lines are compared after trimming spaces on both sides",
         "tabs are not part of the tag-line alphabet ('trimming spaces')",
